@@ -23,7 +23,10 @@ def design_checks(ck, tier):
     runs = [("set/A12", dict(mode="set", msgs="MsgsA12")),
             ("set/both", dict(mode="set", msgs="MsgsBoth", init_a="{14}", init_b="{0, 14}")),
             ("set/A123-win1", dict(mode="set", msgs="MsgsA123", init_a="{14}", init_b="{15}", win=1)),
-            ("set/A123-win3", dict(mode="set", msgs="MsgsA123", init_a="{14}", init_b="{15}", win=3))]
+            ("set/A123-win3", dict(mode="set", msgs="MsgsA123", init_a="{14}", init_b="{15}", win=3)),
+            # receive window of 1 / 2 chunks with the delayed-SACK timer: NewDataWithinWindow at the boundary
+            ("set/A123-rwnd1-delaysack", dict(mode="set", msgs="MsgsA123", init_a="{14}", init_b="{0}", win=3, rwnd=1, delay_sack="TRUE")),
+            ("set/A123-rwnd2-delaysack", dict(mode="set", msgs="MsgsA123", init_a="{14}", init_b="{0}", win=3, rwnd=2, delay_sack="TRUE"))]
     for label, kw in runs:
         res = sc.tlc_mc(ck, label.replace("/", "_"), timeout=1800 if tier == "thorough" else 900, **kw)
         vlib.tlc_ok(res, label)
@@ -44,7 +47,12 @@ def generate(ck, tier):
     vlib.tlc_ok(res, "fifo budget 2")
     ck.add_tlc(res, "fifo/budget2 (pairs)")
     pairs = [s for s in sc.schedules_from(p2) if len(s) == 2]
+    global WINDOW_SCHEDS
+    WINDOW_SCHEDS = sc.gen_window_schedules(ck, tier)
     return singles, pairs, res["finished"]
+
+
+WINDOW_SCHEDS = []
 
 
 def stretch(faults, stride):
@@ -127,6 +135,8 @@ def build_scenarios(singles, pairs, tier):
             scen.append(sc.scenario(f"w{k:03d}", f, [sc.chan(1)], small_workload(rng, n, rng.choice([300, 500, 700])),
                                     cfg=cfg, idle_ms=200, deadline_ms=6000))
             k += 1
+    # advertised window of exactly zero: TLC's closing-window schedules on a 1.5-3 KiB receive window
+    scen += sc.window_scenarios(WINDOW_SCHEDS, rng, idle_ms=150, limit=40 if tier == "quick" else 400, seed=vlib.seed() + 30)
     return scen
 
 
